@@ -16,14 +16,15 @@ import (
 	"os"
 	"testing"
 
+	"github.com/aergoio/aergo/v2/internal/enc/proto"
 	"github.com/willf/bloom"
 )
 
 type vHeader struct {
 	ChainID, Prev, BlocksRoot, TxsRoot, ReceiptsRoot, PubKey, Coinbase, Sign, Consensus string
-	BlockNo, Confirms                                                                    uint64
-	Timestamp                                                                            int64
-	Hash                                                                                 string // Block.Hash field (F8 cases)
+	BlockNo, Confirms                                                                   uint64
+	Timestamp                                                                           int64
+	Hash                                                                                string // Block.Hash field (F8 cases)
 }
 
 type vTx struct {
@@ -46,19 +47,34 @@ type vReceipt struct {
 }
 
 type vCase struct {
-	Kind     string      `json:"kind"`
-	H        *vHeader    `json:"h,omitempty"`
-	T        *vTx        `json:"t,omitempty"`
-	Txs      []vTx       `json:"txs,omitempty"`
-	R        *vReceipt   `json:"r,omitempty"`
-	Rs       []vReceipt  `json:"rs,omitempty"`
-	BloomKey []string    `json:"bloomkeys,omitempty"` // non-nil => receipts carry a bloom filter with these keys
-	HasBloom bool        `json:"hasbloom,omitempty"`
-	Ver      int32       `json:"ver,omitempty"`
-	Cid      *vChainID   `json:"cid,omitempty"`
-	Raw      string      `json:"raw,omitempty"`
-	V        int32       `json:"v,omitempty"`
-	G        *vGenesis   `json:"g,omitempty"`
+	Kind     string     `json:"kind"`
+	H        *vHeader   `json:"h,omitempty"`
+	T        *vTx       `json:"t,omitempty"`
+	Txs      []vTx      `json:"txs,omitempty"`
+	R        *vReceipt  `json:"r,omitempty"`
+	Rs       []vReceipt `json:"rs,omitempty"`
+	BloomKey []string   `json:"bloomkeys,omitempty"` // non-nil => receipts carry a bloom filter with these keys
+	HasBloom bool       `json:"hasbloom,omitempty"`
+	Ver      int32      `json:"ver,omitempty"`
+	Cid      *vChainID  `json:"cid,omitempty"`
+	Raw      string     `json:"raw,omitempty"`
+	V        int32      `json:"v,omitempty"`
+	G        *vGenesis  `json:"g,omitempty"`
+	Vers     []int32    `json:"vers,omitempty"` // FB: fork versions of the child blocks prepared on top of the parent
+}
+
+type vSnap struct {
+	Full, NoSign, Calc, HashField, Proto, Cid string
+}
+
+// snapshot of everything that identifies an already sealed block
+func snapBlock(b *Block) vSnap {
+	var full bytes.Buffer
+	writeBlockHeader(&full, b.Header)
+	nosign, _ := b.Header.bytesForDigest()
+	raw, _ := proto.Encode(b)
+	return vSnap{Full: hx(full.Bytes()), NoSign: hx(nosign), Calc: hx(b.calculateBlockHash()), HashField: hx(b.Hash), Proto: hx(raw),
+		Cid: hx(b.Header.ChainID)}
 }
 
 type vGenesis struct {
@@ -175,9 +191,15 @@ func TestVerifCodecEngine(t *testing.T) {
 			o["calc"] = hx(blk.calculateBlockHash())
 			blk.Hash = unhex(c.H.Hash)
 			o["blockhash"] = hx(blk.BlockHash()) // returns the Hash field when it is non-empty (F8)
+			var again bytes.Buffer
+			writeBlockHeader(&again, bh)
+			o["full_again"] = hx(again.Bytes()) // hold-and-compare: the header after every writer / hash function ran
 		case "T": // transaction identifier
 			tx := c.T.tx()
 			o["hash"] = hx(tx.CalculateTxHash())
+			o["hash_again"] = hx(tx.CalculateTxHash())
+			raw, _ := proto.Encode(tx.Body)
+			o["body_proto"] = hx(raw)
 		case "TR": // transaction root over the Hash fields of the txs (what the code does)
 			txs := make([]*Tx, len(c.Txs))
 			leaves := []string{}
@@ -224,17 +246,26 @@ func TestVerifCodecEngine(t *testing.T) {
 						o[key+"_hugecount"] = evCount
 						return
 					}
-					rest, err := f(&r, exact(append(append([]byte{}, data...), tail...)))
+					buf := exact(append(append([]byte{}, data...), tail...))
+					rest, err := f(&r, buf)
 					if err != nil {
 						o[key+"_err"] = err.Error()
 						return
 					}
 					o[key] = fromReceipt(&r)
 					o[key+"_rest_ok"] = bytes.Equal(rest, tail)
+					// does the decoded receipt retain slices of the caller's buffer?  (informational)
+					before, _ := json.Marshal(fromReceipt(&r))
+					for i := range buf {
+						buf[i] ^= 0x55
+					}
+					after, _ := json.Marshal(fromReceipt(&r))
+					o[key+"_aliases_input"] = !bytes.Equal(before, after)
 				})
 			}
 			dec("d1", s1, (*Receipt).unmarshalBody, (*Receipt).unmarshalStoreBinary)
 			dec("d2", s2, (*Receipt).unmarshalBodyV2, (*Receipt).unmarshalStoreBinaryV2)
+			o["input_after"] = fromReceipt(rc) // hold-and-compare: the receipt after all four encoders and both decoders ran
 			// the version mix-up F17 is about: what a V2-era receipt looks like after a V1 store round trip
 			o["h1"] = hx((&ReceiptMerkle{rc, 0, DummyBlockVersionner(c.Ver)}).GetHash())
 		case "RS": // receipt list of a block at fork version Ver, with or without bloom
@@ -338,7 +369,35 @@ func TestVerifCodecEngine(t *testing.T) {
 			raw := unhex(c.Raw)
 			o["decode_ver"] = DecodeChainIdVersion(raw)
 			guarded(o, "make", func() { o["make"] = hx(MakeChainId(raw, c.V)) })
+			o["raw_after"] = hx(raw) // hold-and-compare: the caller's slice after the call
 			o["version_bytes"] = hx(ChainIdVersion(c.V))
+		case "FB": // a sealed parent block, then child header infos / child blocks prepared on top of it for each fork version
+			parent := &Block{Header: c.H.header()}
+			parent.BlockHash()
+			snaps := []vSnap{snapBlock(parent)}
+			kids := []map[string]interface{}{}
+			for _, v := range c.Vers {
+				k := map[string]interface{}{"v": v}
+				func() {
+					defer func() {
+						if r := recover(); r != nil {
+							k["panic"] = fmt.Sprint(r)
+						}
+					}()
+					bi := NewBlockHeaderInfoFromPrevBlock(parent, 12345, DummyBlockVersionner(v))
+					child := NewBlock(bi, []byte("root"), nil, nil, nil, nil)
+					k["cid"] = hx(child.Header.ChainID)
+					k["fork_version"] = bi.ForkVersion
+					k["decoded"] = DecodeChainIdVersion(bi.ChainId)
+					k["prev"] = hx(child.Header.PrevBlockHash)
+					k["info_of_parent_cid"] = hx(NewBlockHeaderInfo(parent).ChainId)
+					child.BlockHash()
+				}()
+				kids = append(kids, k)
+				snaps = append(snaps, snapBlock(parent)) // the parent again, after this child was prepared
+			}
+			o["snaps"] = snaps
+			o["kids"] = kids
 		}
 		b, _ := json.Marshal(o)
 		fmt.Fprintln(w, string(b))
